@@ -42,6 +42,8 @@ class C02(Check):
     def gen(self, rng, tier, i):
         cfg = calsim.gen_config(rng, rl_prob=0.2, extreme_prob=0.3)
         ops = [["calibrate", rng.randint(1, 4)] for _ in range(rng.randint(1, 4))]
+        if rng.random() < 0.15:
+            calsim.make_scripted_convergence(cfg, rng)
         env = {"n_jobs": rng.choice([1, 1, 2, 4]), "verbose": rng.random() < 0.3, "folder": rng.random() < 0.2,
                "sched": {"mode": "random", "seed": rng.randrange(2 ** 31), "p_line": 0.0}}
         return {"engine": "calsim", "config": cfg, "env": env, "ops": ops, "sim_seed": rng.randrange(2 ** 31)}
@@ -59,6 +61,8 @@ class C02(Check):
         res.stats["batches"] += done
         res.stats["calibrate-calls"] += len(sim.op_results)
         res.stats["calibrate-raised"] += sum(1 for r in sim.op_results if r["exc"])
+        res.stats["probe:stopped-early-at-convergence"] += sum(
+            1 for r, op in zip(sim.op_results, scn["ops"]) if not r["exc"] and r["snap"]["batch_index"] < 0 + sum(o[1] for o in scn["ops"][:scn["ops"].index(op) + 1]))
         for r in sim.op_results:
             if r["exc"]:
                 res.stats["exc:" + r["exc"][0] + ":" + r["exc"][1][:50]] += 1
